@@ -12,7 +12,18 @@ def anc(n, a):
     return False
 
 
-TWINS = {"anc": anc}
+def child_toward(d, t):
+    cur = t
+    while cur is not None and cur.parent is not d:
+        cur = cur.parent
+    return cur
+
+
+def idprefix(n, a):
+    return n.id.startswith(a.id + ".")
+
+
+TWINS = {"anc": anc, "child_toward": child_toward, "idprefix": idprefix}
 
 
 # ---------------------------------------------------------------------------
